@@ -167,3 +167,18 @@ async fn k8_read_at_large_exact() {
     assert_eq!(got.len(), 3_000_001);
     assert_eq!(&got[..], &data[7..7 + 3_000_001]);
 }
+
+
+// K11: a zero-size range after a non-empty one must yield an empty chunk, not the previous chunk's bytes
+#[tokio::test]
+async fn k11_zero_size_range_yields_empty_chunk() {
+    use bitar::archive_reader::ArchiveReader;
+    let data: Vec<u8> = (0..50u8).collect();
+    let mut r = IoReader::new(std::io::Cursor::new(data));
+    let got: Vec<usize> = r
+        .read_chunks(vec![bitar::ChunkOffset::new(0, 4), bitar::ChunkOffset::new(10, 0), bitar::ChunkOffset::new(20, 3)])
+        .map(|c| c.unwrap().len())
+        .collect()
+        .await;
+    assert_eq!(got, vec![4, 0, 3]);
+}
